@@ -10,10 +10,12 @@ from enginelib import kind, walk
 TOKENS = ['a', 'b', 'c', 'ab', ',', '+', 'if', 'x']
 PATTERNS = [r'\d+', r'[a-z]+', r'x*', r'(a)(b)?', r'[ab]', r'\w+', r'b?',
             # patterns that look at what is to the LEFT of the current position (the regex is matched AT the position, in the whole text)
-            r'\bab', r'(?<=x)a', r'\Bb', r'^a', r'(?m)^b', r'(?<![a-z])\d']
+            r'\bab', r'(?<=x)a', r'\Bb', r'^a', r'(?m)^b', r'(?<![a-z])\d',
+            # groups that may not take part in the match (the value of the pattern is then '' / the other group, never 'no match')
+            r'(a)?b', r'(?:(a)|b)x', r'(x)*']
 PAT_SAMPLES = {r'\d+': ['1', '42', '007'], r'[a-z]+': ['a', 'if', 'abc', 'x'], r'x*': ['', 'x', 'xx'],
                r'(a)(b)?': ['a', 'ab'], r'[ab]': ['a', 'b'], r'\w+': ['a1', 'if', 'b_'], r'b?': ['', 'b'],
-               r'\s*b': ['b', ' b'], r'\bab': ['ab'], r'(?<=x)a': ['a'], r'\Bb': ['b'], r'^a': ['a'], r'(?m)^b': ['b'], r'(?<![a-z])\d': ['1', '7']}
+               r'\s*b': ['b', ' b'], r'\bab': ['ab'], r'(?<=x)a': ['a'], r'\Bb': ['b'], r'^a': ['a'], r'(?m)^b': ['b'], r'(?<![a-z])\d': ['1', '7'], r'(a)?b': ['b', 'ab'], r'(?:(a)|b)x': ['bx', 'ax'], r'(x)*': ['', 'x', 'xx']}
 CONSTS = ['k', '42', 'hello', "'q'"]
 NAMES = ['n', 'm', 'items', 'v']
 RULE_NAMES = ['start', 'expr', 'term', 'item', 'Tok', 'atom']
@@ -46,7 +48,7 @@ def gen_exp(rng: random.Random, cfg: GenCfg, depth: int, rules_fwd: list[str], r
         if r < 0.45:
             return ('tok', rng.choice(TOKENS))
         if r < 0.62:
-            pats = (PATTERNS if cfg.left_context else PATTERNS[:7]) + ([r'\s*b'] if cfg.ws_patterns else [])
+            pats = (PATTERNS if cfg.left_context else PATTERNS[:7] + PATTERNS[13:]) + ([r'\s*b'] if cfg.ws_patterns else [])
             return ('pat', rng.choice(pats))
         callable_ = rules_fwd + (rules_back if consumed else [])
         if r < 0.85 and callable_:
@@ -190,6 +192,9 @@ def sample_sentence(rng: random.Random, g, e, depth=3) -> list[str]:
     if k == 'over':
         return sample_sentence(rng, g, e[2], depth)
     raise ValueError(k)
+
+
+UNICODE_WS = ['\xa0', '\u2028', '\x1f', '\x0b', '\x0c', '\x85', '\u3000', '\x1c']      # str.isspace() / \\s beyond blank, tab, CR, LF
 
 
 def join_lexemes(rng: random.Random, lex: list[str], gaps=(' ', ' ', '', '  ', '\n')) -> str:
